@@ -331,9 +331,11 @@ def _setup_member(tr, m, w, cl, emit, by_client, srv_by_corr, rng, ConsumerGroup
              cid=rec["cid"], call=rec)
 
         def finish(result=None):
-            rec["done"] = dict(t=w.clock.seconds(), step=w.clock.steps)
-            emit(m.name, "proc_end", topic=rec["topic"], partition=rec["partition"], offsets=rec["offsets"],
-                 cid=rec["cid"], call=rec)
+            # a Failure here is the consumer cancelling the call (it was stopped): the call is over for afkak
+            cancelled = isinstance(result, Failure)
+            rec["done"] = dict(t=w.clock.seconds(), step=w.clock.steps, cancelled=cancelled)
+            emit(m.name, "proc_cancelled" if cancelled else "proc_end", topic=rec["topic"],
+                 partition=rec["partition"], offsets=rec["offsets"], cid=rec["cid"], call=rec)
             return result
         if beh[0] == "sync":
             finish()
@@ -342,7 +344,7 @@ def _setup_member(tr, m, w, cl, emit, by_client, srv_by_corr, rng, ConsumerGroup
             finish()
             raise ProcessorBoom("processor failure %d" % k)
         d = Deferred()
-        d.addCallback(finish)
+        d.addBoth(finish)
         w.clock.labelled(beh[1], "proc.done." + m.name, lambda: (not d.called) and d.callback(None))
         return d
     tm = ms["timing"]
